@@ -210,7 +210,7 @@ func main() {
 		return depthOf(tier)
 	}
 	drv.Main(drv.Property{
-		ID: "C19", Level: "model_checking", PanicIsViolation: true,
+		ID: "C19", Level: "model_checking", PanicIsViolation: true, MemLimitGB: 4,
 		Rule:        "one case = (implementation list|slice, start New(xs) for every xs over {1,2,3} of length <= 3, plus long argument lists of 8..100 elements explored to depth 2 and of 1025, 3000, 4097 elements explored to depth 1, also folded with an operation that is slow on one early element); from it every script of Cons(1|2|3) / Tail of length <= 6 (8 in thorough) is executed on the real trait (a tree of values, no de-duplication, because hidden state such as slice capacity differs between paths); each produced value is observed (Length, IsEmpty, Head/Tail walk, Fold with the non-commutative operation a*10+b from empty 7) right after the operation, the argument is re-observed, and every value is re-observed after all its later siblings and descendants were built; states = distinct element lists reached, transitions = operations executed; both implementations are compared with the same []int reference, hence with each other",
 		Assumptions: []string{"element values 1..3 stand for all values (the traits are parametric)", "New(xs...) aliasing its argument slice is outside the statement and not checked"},
 		Cases: func(string) (int, func(int) string) {
